@@ -12,6 +12,7 @@ import (
 	"fmt"
 	"os"
 	"runtime/debug"
+	"time"
 
 	"compiler/internal/compiler"
 )
@@ -22,6 +23,9 @@ type req struct {
 	Mode string `json:"mode"`
 	Out  string `json:"out"`
 	Keep bool   `json:"keep"`
+	// TimeoutMs > 0: if the compilation has not finished after that time the hook answers {"panic": "timeout …"} and
+	// exits with status 3 (a runaway goroutine cannot be stopped); the harness restarts the remaining requests.
+	TimeoutMs int `json:"timeout_ms"`
 }
 
 type resp struct {
@@ -67,7 +71,24 @@ func main() {
 		if err := json.Unmarshal(sc.Bytes(), &r); err != nil {
 			continue
 		}
-		b, _ := json.Marshal(one(r))
+		var out resp
+		if r.TimeoutMs > 0 {
+			done := make(chan resp, 1)
+			go func() { done <- one(r) }()
+			select {
+			case out = <-done:
+			case <-time.After(time.Duration(r.TimeoutMs) * time.Millisecond):
+				out = resp{ID: r.ID, OK: false, Panic: fmt.Sprintf("timeout: compilation still running after %d ms", r.TimeoutMs)}
+				b, _ := json.Marshal(out)
+				w.Write(b)
+				w.WriteByte('\n')
+				w.Flush()
+				os.Exit(3)
+			}
+		} else {
+			out = one(r)
+		}
+		b, _ := json.Marshal(out)
 		w.Write(b)
 		w.WriteByte('\n')
 		w.Flush()
